@@ -9,6 +9,9 @@ with a looser selector first must equal selecting once (metamorphic, on copies).
 """
 import copy
 import itertools
+import os
+import shutil
+import tempfile
 import math
 
 import numpy as np
@@ -16,6 +19,8 @@ import numpy as np
 from . import common
 from .common import CaseResult, case_rng, Fraction
 from . import ef
+from . import packages as pk
+from . import c01
 
 PID = 'C05'
 RULE = ('cases = (ranked chi² vector over {1, 2, 3.5, +inf, NaN} of length 0..5 or a random longer ranked vector, '
@@ -24,7 +29,8 @@ RULE = ('cases = (ranked chi² vector over {1, 2, 3.5, +inf, NaN} of length 0..5
         'vector is non-empty; distinct = distinct canonical hash of (vector, flags, selectors)')
 REQUIRED_BRANCHES = ['form_A', 'form_N', 'form_C', 'form_D', 'form_E', 'form_F', 'empty', 'tie', 'inf', 'nan',
                      'nan_first', 'inf_first', 'n_gt_total', 'n_fractional', 'keeps_none', 'keeps_all', 'keeps_some',
-                     'cut_between_distinct', 'flags_non_fitted', 'ndata0_E', 'ndata0_F', 'ndata0_empty_flags', 'pair_idem', 'pair_looser', 'pair_stricter', 'long']
+                     'cut_between_distinct', 'flags_non_fitted', 'ndata0_E', 'ndata0_F', 'ndata0_empty_flags', 'thr_pinf', 'thr_ninf', 'thr_nan', 'num_int', 'num_np_float64',
+                     'num_np_int64', 'num_np_float32', 'fitted', 'fitted_from_fitter', 'fitted_from_file', 'fitted_pair', 'pair_idem', 'pair_looser', 'pair_stricter', 'long']
 ASSUMPTIONS = ['rounding of (chi2 - chi2[0]) / n_data is not modelled: thresholds are kept at least 1e-6 (relative) away '
                'from every attained criterion value, so the float and the exact comparison cannot differ',
                'n_data = 0 (no point flagged 1 or 4) is in the domain: chi2 / 0 follows IEEE (x/0 = +inf for x > 0, 0/0 = nan), '
@@ -36,6 +42,9 @@ GRID = [q / 4. for q in range(-1, 17)]          # -0.25 .. 4.0
 N_GRID = [0, 1, 2, 2.7, 3, 4, 5, 6, 9]
 FLAG_SETS = [[1], [1, 4], [1, 1, 4], [1, 2, 4, 9, 1, 0, 3], [0, 2, 3, 9], []]      # n_data = 1, 2, 3, 3, 0, 0
 N_QUICK = 3000
+N_FITTED = {'quick': 25, 'thorough': 400}
+NUMTYPES = ['float', 'float', 'float', 'int', 'np.float64', 'np.int64', 'np.float32']
+SPECIAL_THR = [ef.INF, -ef.INF, ef.NAN]
 
 
 # ----------------------------------------------------------------------------- the property, directly
@@ -92,6 +101,9 @@ def avoids(form, v, chi2, nd):
     """v is not (nearly) equal to an attained criterion value"""
     if form in ('A', 'N') or v is None:
         return True
+    if not math.isfinite(v):
+        # +inf / -inf equal only an attained infinity of the same sign; NaN equals nothing
+        return not any((not isinstance(a, Fraction)) and a == v for a in attained(form, chi2, nd))
     for a in attained(form, chi2, nd):
         if isinstance(a, Fraction):
             if abs(float(a) - v) <= 1e-6 * (1. + abs(v)):
@@ -130,14 +142,46 @@ def selectors_for(chi2, flags):
     out = [('A', None)]
     out += [('N', n) for n in N_GRID]
     for form in 'CDEF':
-        for v in GRID:
+        for v in GRID + SPECIAL_THR:
             if avoids(form, v, chi2, nd):
                 out.append((form, v))
     return out
 
 
-def mk_case(chi2, flags, sels, tag=None):
-    c = dict(chi2=[ef.js(x) for x in chi2], flags=list(flags), sels=[[f, None if v is None else ef.js(v)] for f, v in sels])
+def typed_ok(form, v, numtype):
+    """can the selector's number be given in this type without changing its value?"""
+    if v is None or numtype == 'float':
+        return True
+    if numtype in ('int', 'np.int64'):
+        return math.isfinite(v) and abs(v) < 2 ** 53 and v == int(v)
+    if numtype == 'np.float32':
+        return math.isnan(v) or float(np.float32(v)) == v
+    return True
+
+
+def typed_number(v, numtype):
+    if v is None:
+        return None
+    if numtype == 'int':
+        return int(v)
+    if numtype == 'np.int64':
+        return np.int64(int(v))
+    if numtype == 'np.float64':
+        return np.float64(v)
+    if numtype == 'np.float32':
+        return np.float32(v)
+    return float(v)
+
+
+def mk_case(chi2, flags, sels, tag=None, numtypes=None):
+    """sels: (form, number) pairs; numtypes: per selector the Python type the number is passed in"""
+    js = []
+    for i, (f, v) in enumerate(sels):
+        nt = (numtypes or ['float'] * len(sels))[i]
+        if not typed_ok(f, v, nt):
+            nt = 'float'
+        js.append([f, None if v is None else ef.js(v)] + ([nt] if nt != 'float' else []))
+    c = dict(chi2=[ef.js(x) for x in chi2], flags=list(flags), sels=js)
     if tag:
         c['tag'] = tag
     return c
@@ -169,6 +213,17 @@ def directed():
     yield mk_case([1, 2, 3.5, 3.5, I], [1, 1], [('N', 4), ('F', 0.75)])
     yield mk_case([1, 2, 3.5, 3.5, I], [1, 1], [('C', 1.5), ('D', 2.)])
     yield mk_case([1, 2, 3.5, 3.5, I], [1, 4, 4], [('E', 1.), ('F', 0.25)])
+    # thresholds +inf / -inf / NaN (not equal to any attained value), numbers given as int / numpy scalars
+    yield mk_case([1, 2, 2, 3.5], [1, 4], [('C', I)])
+    yield mk_case([1, 2, 2, 3.5, Nn], [1, 4], [('E', I), ('D', -I)])
+    yield mk_case([1, 2, 2, I, Nn], [1, 4], [('F', Nn), ('C', Nn)])
+    yield mk_case([1, 2, 2, I, Nn], [1, 4], [('D', -I)])
+    yield mk_case([1, 2, 2, I, Nn], [1, 4, 2], [('N', 3), ('C', 3)], numtypes=['int', 'int'])
+    yield mk_case([1, 2, 2, I, Nn], [1, 4, 2], [('N', 2), ('D', 0.5)], numtypes=['np.int64', 'np.float64'])
+    yield mk_case([1, 2, 2, I, Nn], [1, 4, 2], [('E', 1.25), ('N', 2.5)], numtypes=['np.float32', 'np.float32'])
+    yield mk_case([1, 2, 2, I, Nn], [1, 4, 2], [('F', 1), ('C', 4)], numtypes=['np.int64', 'int'])
+    for i in range(3):
+        yield fitted_case(case_rng(0, PID, 'directed-fitted-%d' % i))
     rng = case_rng(0, PID, 'directed-long')
     yield long_case(rng, pair=False)
     yield long_case(rng, pair=True)
@@ -197,7 +252,15 @@ def long_case(rng, pair):
     sels = [rand_sel(rng, vals, flags) for _ in range(2 if pair else 1)]
     if pair and rng.random() < 0.3:
         sels[1] = sels[0]
-    return mk_case(vals, flags, sels, tag='long')
+    return mk_case(vals, flags, sels, tag='long', numtypes=[rng.choice(NUMTYPES) for _ in sels])
+
+
+def fitted_case(rng):
+    """a result produced by Fitter.fit (and the same result read back from a fit file): the package, the law
+    and the sources come from the C01 generator; the selectors are drawn at run time from `sel_seed` once the
+    chi² values are known (thresholds between attained values)"""
+    e2e = c01.gen_case(rng)
+    return dict(kind='fitted', e2e=e2e, sel_seed=rng.randrange(10 ** 9))
 
 
 def rand_sel(rng, chi2, flags):
@@ -261,6 +324,9 @@ def gen_cases(seed, tier):
         for k in range(4000):
             rng = case_rng(seed, PID, 'long-%d' % k)
             yield long_case(rng, pair=(k % 2 == 1))
+        for k in range(N_FITTED[tier]):
+            yield fitted_case(case_rng(seed, PID, 'fitted-%d' % k))
+        return
     else:
         vecs = list(ranked_vectors())
         for k in range(N_QUICK):
@@ -273,18 +339,27 @@ def gen_cases(seed, tier):
             flags = rng.choice(FLAG_SETS)
             sels = selectors_for(chi2, flags)
             if u < 0.55:
-                yield mk_case(chi2, flags, [rng.choice(sels)])
+                yield mk_case(chi2, flags, [rng.choice(sels)], numtypes=[rng.choice(NUMTYPES)])
             else:
                 s1 = rng.choice(sels)
                 s2 = s1 if rng.random() < 0.25 else rng.choice(sels)
-                yield mk_case(chi2, flags, [s1, s2])
+                yield mk_case(chi2, flags, [s1, s2], numtypes=[rng.choice(NUMTYPES), rng.choice(NUMTYPES)])
+    for k in range(N_FITTED[tier]):
+        yield fitted_case(case_rng(seed, PID, 'fitted-%d' % k))
 
 
 # ----------------------------------------------------------------------------- one case
 
 def sel_tuple(s):
-    form, v = s
+    """(form, number as float) of a JSON selector"""
+    form, v = s[0], s[1]
     return (form, None if v is None else ef.unjs(v))
+
+
+def sel_typed(s):
+    """(form, number in the Python type the case asks for): what is handed to FitInfo.keep"""
+    form, v = sel_tuple(s)
+    return (form, typed_number(v, s[2] if len(s) > 2 else 'float'))
 
 
 def sel_tok(s):
@@ -294,9 +369,9 @@ def sel_tok(s):
     return '%s %s' % (form, ef.ef_tok(v))
 
 
-def apply_real(chi2, pay, flags, sels):
+def apply_real(fresh, sels):
     """FitInfo.keep applied left to right on a fresh object; returns (list of n_fits, final rows)"""
-    info = ef.build_info(chi2, pay, flags=flags)
+    info = fresh()
     ns = []
     with common.quiet():
         for s in sels:
@@ -311,11 +386,53 @@ def cut(pay, chi2, n):
                 model_id=pay['model_id'][:n], fluxes=None if pay['fluxes'] is None else pay['fluxes'][:n])
 
 
+def evaluate(chi2, pay, flags, sels, typed, fresh, br, what):
+    """C05 evaluated directly on the real code for one result and one or two selectors.
+    sels: (form, float) pairs (the oracle's view); typed: the same selectors as handed to keep();
+    fresh(): a new FitInfo holding the result.  Returns (ok, detail, real_ns, real_rows)."""
+    nd = n_data_of(flags)
+    n = len(chi2)
+    try:
+        singles = []
+        for s, ts in zip(sels, typed):
+            ns, rows = apply_real(fresh, [ts])
+            k = expected_count(s, chi2, nd)
+            if k is None:
+                return False, 'harness: criterion not monotone on a ranked vector %r %r' % (chi2, s), None, None
+            want = cut(pay, chi2, k)
+            if ns[0] != k or not ef.rows_equal(rows, want):
+                return (False, '%s: keep(%r) with n_data=%d kept n_fits=%d rows=%r; the property promises '
+                        'the first %d fits of the ranking: %r' % (what, ts, nd, ns[0], rows, k, want), ns, rows)
+            singles.append((ns[0], rows))
+            if s[0] in 'CDEF' and n:
+                br.add('keeps_none' if k == 0 else 'keeps_all' if k == n else 'keeps_some')
+                if k < n and k > 0 and not ef.same(chi2[k - 1], chi2[k]):
+                    br.add('cut_between_distinct')
+        real_ns, real_rows = [singles[0][0]], singles[0][1]
+        if len(sels) == 2:
+            real_ns, real_rows = apply_real(fresh, typed)
+            n1, n2 = singles[0][0], singles[1][0]
+            if sels[0] == sels[1]:
+                br.add('pair_idem')
+            elif n1 >= n2:
+                br.add('pair_looser')
+            else:
+                br.add('pair_stricter')
+            if n1 >= n2 and not ef.rows_equal(real_rows, singles[1][1]):
+                return (False, '%s: keep(%r) keeps %d >= %d = what keep(%r) keeps, but keep(%r) after keep(%r) '
+                        'gives %r while keep(%r) alone gives %r' % (what, typed[0], n1, n2, typed[1], typed[1], typed[0],
+                                                                      real_rows, typed[1], singles[1][1]), real_ns, real_rows)
+    except Exception as e:
+        return False, '%s: FitInfo.keep raised %s: %s, selectors %r' % (what, type(e).__name__, e, typed), None, None
+    return True, '', real_ns, real_rows
+
+
 def property_side(case):
     """evaluate C05 directly on the real code; returns (ok, detail, branches, real_ns, real_rows)"""
     chi2 = [ef.unjs(x) for x in case['chi2']]
     flags = case['flags']
     sels = [sel_tuple(s) for s in case['sels']]
+    typed = [sel_typed(s) for s in case['sels']]
     nd = n_data_of(flags)
     n = len(chi2)
     pay = payload_for(case)
@@ -342,48 +459,24 @@ def property_side(case):
             br.add('ndata0_empty_flags')
     if case.get('tag') == 'long':
         br.add('long')
-    for s in sels:
+    for s, js in zip(sels, case['sels']):
         br.add('form_' + s[0])
         if s[0] == 'N' and s[1] > n:
             br.add('n_gt_total')
         if s[0] == 'N' and s[1] != int(s[1]):
             br.add('n_fractional')
-    try:
-        # each selector alone
-        singles = []
-        for s in sels:
-            ns, rows = apply_real(chi2, pay, flags, [s])
-            k = expected_count(s, chi2, nd)
-            if k is None:
-                return False, 'harness: criterion not monotone on a ranked vector %r %r' % (chi2, s), br, None, None
-            want = cut(pay, chi2, k)
-            if ns[0] != k or not ef.rows_equal(rows, want):
-                return (False, 'keep(%r) on chi2=%r flags=%r (n_data=%d): kept n_fits=%d rows=%r; the property promises '
-                        'the first %d fits of the ranking: %r' % (s, case['chi2'], flags, nd, ns[0], rows, k, want),
-                        br, ns, rows)
-            singles.append((ns[0], rows))
-            if s[0] in 'CDEF' and n:
-                br.add('keeps_none' if k == 0 else 'keeps_all' if k == n else 'keeps_some')
-                if k < n and k > 0 and not ef.same(chi2[k - 1], chi2[k]):
-                    br.add('cut_between_distinct')
-        real_ns, real_rows = [singles[0][0]], singles[0][1]
-        if len(sels) == 2:
-            s1, s2 = sels
-            real_ns, real_rows = apply_real(chi2, pay, flags, [s1, s2])
-            n1, n2 = singles[0][0], singles[1][0]
-            if s1 == s2:
-                br.add('pair_idem')
-            elif n1 >= n2:
-                br.add('pair_looser')
-            else:
-                br.add('pair_stricter')
-            if n1 >= n2 and not ef.rows_equal(real_rows, singles[1][1]):
-                return (False, 'chi2=%r flags=%r: keep(%r) keeps %d >= %d = what keep(%r) keeps, but keep(%r) after keep(%r) '
-                        'gives %r while keep(%r) alone gives %r' % (case['chi2'], flags, s1, n1, n2, s2, s2, s1, real_rows,
-                                                                      s2, singles[1][1]), br, real_ns, real_rows)
-    except Exception as e:
-        return False, 'FitInfo.keep raised %s: %s on chi2=%r flags=%r sels=%r' % (type(e).__name__, e, case['chi2'], flags, sels), br, None, None
-    return True, '', br, real_ns, real_rows
+        if s[0] in 'CDEF' and n:
+            if s[1] == ef.INF:
+                br.add('thr_pinf')
+            elif s[1] == -ef.INF:
+                br.add('thr_ninf')
+            elif math.isnan(s[1]):
+                br.add('thr_nan')
+        if len(js) > 2 and s[0] != 'A':
+            br.add('num_' + js[2].replace('.', '_'))
+    what = 'chi2=%r flags=%r' % (case['chi2'], flags)
+    ok, detail, ns, rows = evaluate(chi2, pay, flags, sels, typed, lambda: ef.build_info(chi2, pay, flags=flags), br, what)
+    return ok, detail, br, ns, rows
 
 
 def payload_for(case):
@@ -393,11 +486,9 @@ def payload_for(case):
     return ef.payload(n, with_fluxes=(n % 2 == 0 or n > 5), ids=ids)
 
 
-def model_side(case):
-    chi2 = [ef.unjs(x) for x in case['chi2']]
-    pay = payload_for(case)
-    line = ['keep', str(len(case['sels']))] + [sel_tok(sel_tuple(s)) for s in case['sels']]
-    line += [str(len(case['flags']))] + [str(f) for f in case['flags']]
+def ask_model(chi2, pay, flags, sels):
+    line = ['keep', str(len(sels))] + [sel_tok(s) for s in sels]
+    line += [str(len(flags))] + [str(f) for f in flags]
     line.append(ef.rows_line(chi2, pay))
     t = common.driver().ask(' '.join(line))
     ns = t.nats()
@@ -405,7 +496,87 @@ def model_side(case):
     return ns, rows
 
 
+def model_side(case):
+    chi2 = [ef.unjs(x) for x in case['chi2']]
+    return ask_model(chi2, payload_for(case), case['flags'], [sel_tuple(s) for s in case['sels']])
+
+
+# ----------------------------------------------------------------------------- results of Fitter.fit
+
+def run_fitted(case, with_model=True):
+    """keep() on what Fitter.fit returns (Quantity arrays) and on the same record read back from a fit file"""
+    from sedfitter.fit_info import FitInfoFile
+    d = tempfile.mkdtemp(prefix='c05_')
+    br = {'fitted'}
+    key = common.canon_hash(case)
+    e2e = case['e2e']
+    rng = case_rng(case['sel_seed'], PID, 'fitted-selectors')
+    try:
+        with common.quiet():
+            fitter, names = c01.build(e2e, d)
+        done = 0
+        for si, src in enumerate(e2e['sources']):
+            if c01.singular(e2e, src) or done >= 2:
+                continue
+            s = pk.make_source('s%d' % si, src['flags'], src['flux'], src['err'])
+            with common.quiet():
+                info = fitter.fit(s)
+            rows = ef.rows_of_info(info)
+            if not all(math.isfinite(x) for x in rows['av'] + rows['sc']) or not ef.is_ranked(rows['chi2']):
+                continue
+            done += 1
+            chi2 = rows['chi2']
+            pay = dict(av=rows['av'], sc=rows['sc'], name=rows['name'], model_id=rows['model_id'], fluxes=rows['fluxes'])
+            flags = [int(f) for f in src['flags']]
+            path = os.path.join(d, 'fit%d.fitinfo' % si)
+            fout = FitInfoFile(path, 'w')
+            fout.write(info)
+            fout.close()
+
+            def from_fitter():
+                return copy.deepcopy(info)
+
+            def from_file():
+                f = FitInfoFile(path, 'r')
+                try:
+                    return next(iter(f))
+                finally:
+                    f.close()
+
+            if not ef.rows_equal(ef.rows_of_info(from_file()), rows):
+                return CaseResult(False, detail='source %d: the record read back from the fit file differs from what Fitter.fit '
+                                  'returned' % si, violates=None, branches=br, key=key)
+            for origin, fresh in (('fitter', from_fitter), ('file', from_file)):
+                for trial in range(3):
+                    sels = [rand_sel(rng, chi2, flags) for _ in range(rng.choice([1, 2]))]
+                    nts = [rng.choice(NUMTYPES) for _ in sels]
+                    nts = [nt if typed_ok(f, v, nt) else 'float' for (f, v), nt in zip(sels, nts)]
+                    typed = [(f, typed_number(v, nt)) for (f, v), nt in zip(sels, nts)]
+                    br.add('fitted_from_' + origin)
+                    if len(sels) == 2:
+                        br.add('fitted_pair')
+                    for f_, _ in sels:
+                        br.add('form_' + f_)
+                    what = 'result of Fitter.fit (%s) for source %d, chi2=%r, flags=%r' % (
+                        'as returned' if origin == 'fitter' else 'read back from a fit file', si, [ef.js(c) for c in chi2], flags)
+                    ok, detail, ns, got = evaluate(chi2, pay, flags, sels, typed, fresh, br, what)
+                    if not ok:
+                        return CaseResult(False, detail=detail, violates=True, branches=br, key=key)
+                    if with_model:
+                        m_ns, m_rows = ask_model(chi2, pay, flags, sels)
+                        if m_ns != ns or not ef.rows_equal(m_rows, got):
+                            return CaseResult(False, detail='model and implementation differ (%s, selectors %r): model n_fits=%r rows=%r; '
+                                              'impl n_fits=%r rows=%r' % (what, sels, m_ns, m_rows, ns, got),
+                                              violates=None, branches=br, key=key)
+        return CaseResult(True, branches=br, key=key, nontrivial=done > 0,
+                          sample=dict(kind='fitted', n_models=len(e2e['models']), sources_used=done))
+    finally:
+        shutil.rmtree(d, ignore_errors=True)
+
+
 def run_case(case):
+    if case.get('kind') == 'fitted':
+        return run_fitted(case)
     ok, detail, br, real_ns, real_rows = property_side(case)
     key = common.canon_hash(case)
     if not ok:
@@ -426,7 +597,11 @@ def search(seed, tier, disagreeing):
     pool = list(disagreeing) + list(itertools.islice(gen_cases(seed, 'quick'), 1500))
     for case in pool:
         tried += 1
-        ok, detail, _, _, _ = property_side(case)
+        if case.get('kind') == 'fitted':
+            r = run_fitted(case, with_model=False)
+            ok, detail = r.ok, r.detail
+        else:
+            ok, detail, _, _, _ = property_side(case)
         if not ok:
             found.append((case, detail))
             if len(found) >= 5:
@@ -437,11 +612,14 @@ def search(seed, tier, disagreeing):
 def in_domain(case):
     chi2 = [ef.unjs(x) for x in case['chi2']]
     nd = n_data_of(case['flags'])
-    return ef.is_ranked(chi2) and all(avoids(f, None if v is None else ef.unjs(v), chi2, nd)
-                                                  for f, v in case['sels'])
+    return ef.is_ranked(chi2) and all(avoids(s_[0], None if s_[1] is None else ef.unjs(s_[1]), chi2, nd)
+                                      for s_ in case['sels'])
 
 
 def shrink(case):
+    if case.get('kind') == 'fitted':
+        return case
+
     def fails(c):
         try:
             return in_domain(c) and not property_side(c)[0]
